@@ -20,10 +20,16 @@ ASSUMPTIONS = ['kinds by function name and date field maps are in vp/tables/c12_
 def getters(name, m):
     out = []
     for n, f in sorted(vars(m).items()):
-        if n.startswith('_') or n in T.SKIP or not inspect.isfunction(f) or f.__module__ != name:
+        if n.startswith('_') or n in T.SKIP or not inspect.isfunction(f):
             continue
         if n.startswith(T.SKIP_PREFIX):
             continue
+        if f.__module__ != name:
+            # getters re-exported from another stdnum number module (lt.asmens.get_birth_date is ee.ik's) are part
+            # of this module's public interface; helpers imported from stdnum.util etc. are not
+            if not (f.__module__.startswith('stdnum.') and f.__module__ not in ('stdnum.util', 'stdnum.numdb', 'stdnum.exceptions')
+                    and n.startswith(('get_', 'info', 'split', 'guess_'))):
+                continue
         try:
             ps = list(inspect.signature(f).parameters.values())
         except (TypeError, ValueError):
@@ -50,11 +56,16 @@ def _call(f, x):
         return ('exc', type(e).__name__, exc_site(e))
 
 
-def _eval(res, name, m, fn, x, v, clk, cache):
+def _eval(res, name, m, fn, x, v, clk, cache, opts=None):
     """x: presentation passed to the getter, v: canonical number."""
-    f = getattr(m, fn)
+    f0 = getattr(m, fn)
+    opts = opts or {}
+    f = (lambda y: f0(y, **opts)) if opts else f0
     o = _call(f, x)
-    case = {'module': name, 'getter': fn, 'number': x, 'canonical': v, 'clock': clk.isoformat() if clk else None}
+    case = {'module': name, 'getter': fn, 'number': x, 'canonical': v, 'clock': clk.isoformat() if clk else None,
+            'options': {k: core.enc(val) for k, val in opts.items()}}
+    if opts:
+        fn = fn + '(' + ','.join(sorted(opts)) + ')'
     rank = [0, len(x), x]
     ln = 'len%d' % len(v)
     if o[0] == 'exc':
@@ -78,6 +89,16 @@ def _eval(res, name, m, fn, x, v, clk, cache):
                 res.viol(ID, 'date-disagrees-with-digits', name, fn, case,
                          'date %s but digits encode (yy, mm, dd) = %r' % (r.isoformat(), exp), 'agreement',
                          devclass=ln, rank=rank)
+        yr = T.YEAR_RULES.get(name)
+        if yr is not None and x == v and not opts:
+            try:
+                expy = yr(v)
+            except Exception:
+                expy = None
+            if expy is not None and expy != r.year:
+                res.viol(ID, 'date-disagrees-with-century-digits', name, fn, case,
+                         'date %s but the digits of %r encode the year %d' % (r.isoformat(), v, expy), 'agreement',
+                         devclass=ln, rank=rank)
         rule = T.CENTURY_RULES.get(name)
         if rule is not None and x == v:
             why = rule(v, r, clk or datetime.date.today())
@@ -98,7 +119,9 @@ def _eval(res, name, m, fn, x, v, clk, cache):
     if fn == 'split':
         joined = ''.join(r)
         targets = {v}
-        for conv in ('compact', 'to_ismn13', 'to_isbn13'):
+        if opts.get('convert'):
+            targets = set()
+        for conv in (('to_isbn13',) if opts.get('convert') else ('compact', 'to_ismn13', 'to_isbn13')):
             # the documented 13-digit presentation of ISMN/ISBN is an accepted normalisation
             try:
                 targets.add(getattr(m, conv)(x))
@@ -139,10 +162,18 @@ def work(item):
     res['extra']['synth_registry_numbers'] = {name: len(reg)} if reg else {}
     pres = [(s, v) for s, v in seedmod.seeds(name, 20 if quick else None) if s != v]
     n = ok = 0
+    from ..tables.options import option_sets
     for fn in gs:
         for v in values:
             n += 1
             ok += _eval(res, name, m, fn, v, v, None, None)
+        # each single non-default boolean option of the getter itself
+        for o in option_sets(name, getattr(m, fn))[0][1:]:
+            if not all(isinstance(val, bool) for val in o.values()):
+                continue
+            for v in values[:200 if quick else 3000]:
+                n += 1
+                ok += _eval(res, name, m, fn, v, v, None, None, o)
         for s, v in pres:
             n += 1
             ok += _eval(res, name, m, fn, s, v, None, None)
@@ -175,6 +206,8 @@ def replay(case):
     res = Result()
     clock.install()
     clock.set_today(datetime.date.fromisoformat(case['clock']) if case.get('clock') else None)
-    _eval(res, name, m, case['getter'], case['number'], case['canonical'], None, None)
+    _eval(res, name, m, case['getter'], case['number'], case['canonical'],
+          datetime.date.fromisoformat(case['clock']) if case.get('clock') else None, None,
+          {k: core.dec(val) for k, val in case.get('options', {}).items()})
     clock.set_today(None)
     return res['violations']
